@@ -70,7 +70,7 @@ def handle : Handler
     match strOfHex u, strOfHex p, strOfHex v, parseInt hb, parseActs acts with
     | some u, some p, some v, some hb, some as =>
       let cfg : Config := { username := u, password := p, vhost := v, heartbeat := hb, ioShared := shared == "1" }
-      let (st, out) := openConn cfg (ioOk == "1") as
+      let (st, out) := openConnFinal cfg (ioOk == "1") as
       let sent := if st.sent.isEmpty then "-" else ";".intercalate (st.sent.map showCFrame)
       some s!"out={showOutcome out} state={st.state} sent={sent} chmax={st.chanMax} fmax={st.frameMax} excs={st.excs.length} crashed={if st.readerCrashed then 1 else 0} blocked={if st.blocked then 1 else 0}"
     | _, _, _, _, _ => some "bad-op"
